@@ -169,48 +169,51 @@ class CompilerBase(ABC):
                                 classical_registers,
                             )
                         elif after_control and (not after_target):
+                            # target noise before the gate, control noise after it. The operation's noise is swapped
+                            # temporarily and always restored, also when a noise model raises
                             noise_copy = op.noise
-                            tmp_noise = [nm.NoNoise, op.noise[1]]
-                            op.noise = tmp_noise
-                            self._apply_additional_noise(
-                                state, op, circuit.n_quantum, q_index
-                            )
+                            try:
+                                op.noise = [nm.NoNoise(), noise_copy[1]]
+                                self._apply_additional_noise(
+                                    state, op, circuit.n_quantum, q_index
+                                )
 
-                            self.compile_one_gate(
-                                state,
-                                op,
-                                circuit.n_quantum,
-                                q_index,
-                                classical_registers,
-                            )
-                            tmp_noise = [op.noise[0], nm.NoNoise]
+                                self.compile_one_gate(
+                                    state,
+                                    op,
+                                    circuit.n_quantum,
+                                    q_index,
+                                    classical_registers,
+                                )
 
-                            op.noise = tmp_noise
-                            self._apply_additional_noise(
-                                state, op, circuit.n_quantum, q_index
-                            )
-                            op.noise = noise_copy
+                                op.noise = [noise_copy[0], nm.NoNoise()]
+                                self._apply_additional_noise(
+                                    state, op, circuit.n_quantum, q_index
+                                )
+                            finally:
+                                op.noise = noise_copy
                         else:
+                            # control noise before the gate, target noise after it
                             noise_copy = op.noise
-                            tmp_noise = [op.noise[0], nm.NoNoise]
-                            op.noise = tmp_noise
-                            self._apply_additional_noise(
-                                state, op, circuit.n_quantum, q_index
-                            )
-                            self.compile_one_gate(
-                                state,
-                                op,
-                                circuit.n_quantum,
-                                q_index,
-                                classical_registers,
-                            )
+                            try:
+                                op.noise = [noise_copy[0], nm.NoNoise()]
+                                self._apply_additional_noise(
+                                    state, op, circuit.n_quantum, q_index
+                                )
+                                self.compile_one_gate(
+                                    state,
+                                    op,
+                                    circuit.n_quantum,
+                                    q_index,
+                                    classical_registers,
+                                )
 
-                            tmp_noise = [nm.NoNoise, op.noise[1]]
-                            op.noise = tmp_noise
-                            self._apply_additional_noise(
-                                state, op, circuit.n_quantum, q_index
-                            )
-                            op.noise = noise_copy
+                                op.noise = [nm.NoNoise(), noise_copy[1]]
+                                self._apply_additional_noise(
+                                    state, op, circuit.n_quantum, q_index
+                                )
+                            finally:
+                                op.noise = noise_copy
                     else:
                         raise ValueError(
                             "We currently do not support different noise positions for one controlled gate."
